@@ -119,6 +119,26 @@ fn eval_paths<T: Evaluate>(m: &mut Mon, tname: &str, pw: &Piecewise<T>) {
         let b: Vec<f64> = qs.iter().rev().map(|x| ev.evaluate(*x)).collect();
         (f, b)
     });
+    for e in ends.iter().take(3) {
+        // the very first query of a fresh evaluator, exactly on a breakpoint
+        let x = *e;
+        m.eval();
+        m.count("fresh_evaluator_first_query_on_a_breakpoint");
+        let a = guard(|| PiecewiseEvaluator::new(&pw.segments).evaluate(x));
+        let b = guard(|| pw.evaluate(x));
+        match (a, b) {
+            (Ok(a), Ok(b)) => {
+                if !bits_eq(a, b) {
+                    m.violation("evaluation paths disagree on an Arbitrary-generated function", || json!({"type": tname, "ends": hxs(&ends[..ends.len().min(20)]), "x": hx(x), "path": "fresh evaluator, first query"}));
+                    return;
+                }
+            }
+            (Err(p), _) | (_, Err(p)) => {
+                m.panic("evaluation panics on an Arbitrary-generated function", &p, || json!({"type": tname, "x": hx(x)}));
+                return;
+            }
+        }
+    }
     for (i, x) in qs.iter().enumerate() {
         m.eval();
         let s = sel(&ends, *x);
